@@ -1055,27 +1055,25 @@ int main(int argc, char **argv) {
     const std::string mode = a.mode;
     int depth = (int)a.num("depth", 4), guards = (int)a.num("guards", 1);
     if (mode == "xcount") { printf("%llu\n", (unsigned long long)xspace(depth, guards)); return 0; }
-    for (uint64_t i = a.first; i < a.first + a.count; ++i) {
-        vh::begin_case(i);
+    const uint64_t last = a.first + a.count - 1;
+    return vh::run(argc, argv, [&](uint64_t i, vh::Rng &rng) {
         CaseSpec cs;
         if (mode == "exhaustive") {
             xcase(i, depth, guards, cs);
             run_case(cs, (i % 977) == 0);
         } else {
-            vh::Rng rng(vh::mix(a.seed, i));
             gen_case(rng, cs);
             run_case(cs, true);
         }
-        if (a.verbose) {
+        if (vh::st().args.verbose) {
             std::string calls;
             for (const Call &c : cs.calls) calls += call_str(c) + "; ";
             fprintf(stderr, "case %llu: %s\n  calls: %s\n", (unsigned long long)i, describe(cs).c_str(), calls.c_str());
         }
-        vh::end_case();
-    }
-    for (int c = 0; c < C_NCOUNTERS; ++c) if (g_cnt[c]) vh::counter(kCounterName[c], g_cnt[c]);
-    vh::counter_max("max_depth_active", g_max_depth_active);
-    vh::counter_max("max_callbacks_in_one_call", g_max_trace_len);
-    vh::finish();
-    return 0;
+        if (i == last) {    // vh::run() prints the summary right after the last case: hand over the counters now
+            for (int c = 0; c < C_NCOUNTERS; ++c) if (g_cnt[c]) vh::counter(kCounterName[c], g_cnt[c]);
+            vh::counter_max("max_depth_active", g_max_depth_active);
+            vh::counter_max("max_callbacks_in_one_call", g_max_trace_len);
+        }
+    });
 }
